@@ -522,9 +522,10 @@ func (f *FnEnc) doMakeInterface(x *ssa.MakeInterface) {
 		f.clos[x] = cl
 	}
 	if f.e.reg.isStruct(t) {
-		// box the struct value in a fresh heap object
+		// box the struct value in a fresh immutable value cell
 		r := f.alloc()
-		f.storeStructNoGuard(t, r, f.def("boxv", v.S, v.T))
+		comp := "Box." + v.S
+		f.writeField(comp, r, v.T)
 		f.setVal(x, fmt.Sprintf("(mkAny %d %s)", tid, r))
 		return
 	}
@@ -550,7 +551,7 @@ func (f *FnEnc) storeStructNoGuard(t types.Type, ref, v string) {
 func (f *FnEnc) fromAny(t types.Type, a string) string {
 	s := f.e.reg.sortOf(t)
 	if f.e.reg.isStruct(t) {
-		return f.loadStruct(t, fmt.Sprintf("(a.val %s)", a))
+		return f.readField("Box."+s, fmt.Sprintf("(a.val %s)", a))
 	}
 	switch s {
 	case "Int":
